@@ -4510,3 +4510,8 @@ mod tests {
         assert_eq!(Ok(()), foca.handle_data(&msg, AccumulatingRuntime::new()));
     }
 }
+
+#[cfg(foca_verif)]
+mod verif;
+#[cfg(foca_verif)]
+pub use crate::verif::{VerifProbe, VerifSnapshot};
